@@ -159,6 +159,71 @@ def whModel (fl : WhFlavour) (p : DupPolicy) (eta β₁ β₂ lam : R)
           [ids] (List.range outs.length) chunk w0⟩
   | _, _, _ => .error .other
 
+/-- the order in which the MODEL `whModel` appends the new binary-side labels
+    to given weights: counting order (first occurrence in the events) -/
+def countingNew (old ev : List String) : List String := ev.filter (fun x => !old.contains x)
+
+/-- **`whModel` with the order of the appended binary-side labels as a
+    parameter.**  wh.py appends `list(set(new) - set(old))` (wh.py 433, 631): the
+    new names in Python's SET order, which depends on the string hashes of the
+    process.  `nl old ev` is the block appended to the old labels `old` when the
+    events name `ev` (counting order); the code's block is SOME duplicate-free
+    arrangement of the names of `ev` that are not in `old`, i.e. a permutation of
+    `countingNew old ev`.  Everything else is `whModel` verbatim
+    (`whModel_eq_with : whModel = whModelWith countingNew`, by `rfl`);
+    `C08.wh_appended_label_order_irrelevant`: every such `nl` gives the same
+    weights at every pair of labels. -/
+def whModelWith (nl : List String → List String → List String)
+    (fl : WhFlavour) (p : DupPolicy) (eta β₁ β₂ lam : R)
+    (cueTab outTab : Option (VecTable R)) (chunk : Nat) (W0 : Option (LW R))
+    (es : List (Event String String)) : Except Err (LW R) :=
+  let (cuesEv, outsEv) := countNames es
+  match fl, cueTab, outTab with
+  | .b2r, none, some ot =>
+    if outsEv.any (fun o => !ot.names.contains o) then .error .value else
+    let nO := ot.dims.length
+    let init : Except Err (List String × Array R) := match W0 with
+      | none => .ok (cuesEv, Array.replicate (nO * cuesEv.length) 0)
+      | some w =>
+        if w.outcomes.length ≠ nO then .error .value
+        else if w.outcomes ≠ ot.dims then .error .value
+        else
+          let cues := w.cues ++ nl w.cues cuesEv
+          .ok (cues, extendVals w.vals nO w.cues.length nO cues.length)
+    match init with
+    | .error e => .error e
+    | .ok (cues, w0) =>
+      match applyPolicyIds p (es.map (toIds cues ot.names)) with
+      | .error e => .error e
+      | .ok ids =>
+        if chunk < 1 then .error .other else
+        .ok ⟨ot.dims, cues, learnOmpWith
+          (fun w d e => whB2RRowEvent eta ot.vals nO cues.length w d e.cues e.outcomes)
+          [ids] (List.range nO) chunk w0⟩
+  | .r2b, some ct, none =>
+    if cuesEv.any (fun c => !ct.names.contains c) then .error .value else
+    let nC := ct.dims.length
+    let init : Except Err (List String × Array R) := match W0 with
+      | none => .ok (outsEv, Array.replicate (outsEv.length * nC) 0)
+      | some w =>
+        if alignRaises ct.dims w.cues then .error .value
+        else if w.cues.length ≠ nC then .error .value
+        else
+          let outs := w.outcomes ++ nl w.outcomes outsEv
+          .ok (outs, extendVals w.vals w.outcomes.length nC outs.length nC)
+    match init with
+    | .error e => .error e
+    | .ok (outs, w0) =>
+      match applyPolicyIds p (es.map (toIds ct.names outs)) with
+      | .error e => .error e
+      | .ok ids =>
+        if chunk < 1 then .error .other else
+        .ok ⟨outs, ct.dims, learnOmpWith
+          (fun w ii e => whR2BRowEvent β₁ β₂ lam ct.vals nC w ii e.cues e.outcomes)
+          [ids] (List.range outs.length) chunk w0⟩
+  -- real → real has no binary side: nothing is appended
+  | fl, cueTab, outTab => whModel fl p eta β₁ β₂ lam cueTab outTab chunk W0 es
+
 end
 
 end Pyndl
